@@ -25,6 +25,9 @@ default_path_config = 'local'
 
 #########################################################
 # Config for FindInAll
+_finders_by_config = {}  # the Finders are built once per config: FindInAll groups typed searches by Finder instance
+
+
 def get_finder_for(search_sid, config=None):  # get finder by Sid and optional config
     """
     Configuration used by FindInAll, to define which Finder is used for a given Search Sid.
@@ -46,6 +49,10 @@ def get_finder_for(search_sid, config=None):  # get finder by Sid and optional c
     from spil_sid_conf import projects, asset_types  # type: ignore
     from spil import FindInConstants, FindInPaths, Finder
 
+    finders_by_type = _finders_by_config.get(config)
+    if finders_by_type is not None:
+        return finders_by_type.get(search_sid.type, {}) or finders_by_type.get('default', {}) or None
+
     finder_paths = FindInPaths()
     finder_projects = FindInConstants("project", projects)
     finder_types = FindInConstants("type", ["a", "s"], parent_source=finder_projects)
@@ -61,6 +68,7 @@ def get_finder_for(search_sid, config=None):  # get finder by Sid and optional c
         'shot__state': finder_asset_states,
         'default': finder_paths
     }
+    _finders_by_config[config] = finders_by_type
 
     finder: Finder = finders_by_type.get(search_sid.type, {}) or finders_by_type.get('default', {})
     if finder:
